@@ -226,11 +226,15 @@ spif_str_init_from_fp(spif_str_t self, FILE *fp)
     self->size = buff_inc;
     self->len = 0;
     self->s = (spif_charptr_t) MALLOC(self->size);
+    self->s[0] = 0;
 
-    for (p = self->s; fgets((char *)p, buff_inc, fp); p += buff_inc) {
+    for (p = self->s; fgets((char *)p, buff_inc, fp);) {
         if (!(end = (spif_charptr_t)strchr((const char *)p, '\n'))) {
+            /* Continue right after what was read; the buffer may move. */
+            self->len += (spif_stridx_t) strlen((const char *)p);
             self->size += buff_inc;
             self->s = (spif_charptr_t) REALLOC(self->s, self->size);
+            p = self->s + self->len;
         } else {
             *end = 0;
             break;
